@@ -48,10 +48,19 @@ class RigidAdapter(MonoidalAdapter):
     def __init__(self):
         from discopy import rigid
         self.m = rigid
-        self.names = Names({"Ob:%r" % v: k for k, v in self.ATOMS.items()})
+        self.names = Names(dict({"Ob:%r" % v: k for k, v in self.ATOMS.items()}, **{"Ob:1": self.SELF_DUAL}))
+
+    SELF_DUAL = 9            # abstract name of the self-dual object of rigid.PRO (x.l == x == x.r); only in pure PRO types
 
     def ob(self, a):
+        if a[0] == self.SELF_DUAL:
+            return self.m.Ob(1, 0)
         return self.m.Ob(self.ATOMS[a[0]], a[1])
+
+    def ty(self, t):
+        if len(t) and all(a[0] == self.SELF_DUAL for a in t):
+            return self.m.PRO(len(t))
+        return super().ty(t)
 
     def box(self, b):
         kind = b.get("kind", 0)
